@@ -58,7 +58,7 @@ func optionOrder(r *core.Run) {
 				if len(c.Args) == 2 {
 					if fl, ok := c.Args[1].(*ast.FuncLit); ok {
 						ast.Inspect(fl.Body, func(x ast.Node) bool {
-							if s, ok := x.(*ast.SelectorExpr); ok && s.Sel.Name == "qualifiedName" {
+							if s, ok := x.(*ast.SelectorExpr); ok && selRecorded(info, s) == "qualifiedName" {
 								sorted = true
 							}
 							return true
